@@ -85,6 +85,7 @@ type Contract struct {
 	Line      int
 	Inline    bool
 	ExitHints []*E
+	AllowPanic bool                // explicit panic statements are part of the function's behaviour (no obligation)
 	NoCall    []string             // callee names that must not be called (e.g. blocking operations)
 	Then      *Contract            // second phase of a blocking call (after the environment has run)
 	OnSpawn   []GhostAssign        // initial values of thread-local ghosts when started with `go`
@@ -110,7 +111,7 @@ func newSpecSet() *SpecSet {
 var directiveKW = map[string]bool{"pure": true, "opaque": true, "axiom": true, "lemma": true, "func": true, "extern": true,
 	"requires": true, "ensures": true, "modifies": true, "loop": true, "use": true, "names": true,
 	"expect_obligations": true, "ghost": true, "at": true, "trusted": true, "property": true, "noreturn": true,
-	"inline": true, "hint": true, "exit": true, "bounded": true, "callee": true, "shared": true, "rely": true, "guar": true, "ginv": true, "nocall": true, "then": true, "onspawn": true}
+	"inline": true, "hint": true, "exit": true, "bounded": true, "callee": true, "shared": true, "rely": true, "guar": true, "ginv": true, "nocall": true, "then": true, "onspawn": true, "allowpanic": true}
 
 // readDirectives returns logical directive lines (continuations joined).
 func readDirectives(path string, prefixed bool) ([]string, []int, error) {
@@ -387,6 +388,8 @@ func (ss *SpecSet) loadSpecFile(path string, prefixed bool, pkgDir string) error
 				cur.Trusted = true
 			case d == "noreturn":
 				cur.NoReturn = true
+			case d == "allowpanic":
+				cur.AllowPanic = true
 			case d == "inline":
 				cur.Inline = true
 			case strings.HasPrefix(d, "modifies"):
